@@ -6,7 +6,7 @@ C25 — outgoing cookies are emitted exactly as set: the property theorems.
 `outputString` is `Morsel.OutputString`, and `Spec.readSetCookie` is the client-side reading of a
 `Set-Cookie` value.  All statements are universally quantified over code-point strings.
 -/
-import TornadoModel.C25.Clean
+import TornadoModel.C25.Sent
 namespace TornadoModel.C25
 open Spec
 
@@ -250,5 +250,92 @@ example : serveHandler [.cookie { name := .str [97], value := .str [49] }, .clea
                         .cookie { name := .str [98], value := .str [50], httponly := true }] (.raiseHTTP 403)
     = ([none, none, none], .ok (403, [[97, 61, 49, 59, 32, 80, 97, 116, 104, 61, 47],
         [98, 61, 50, 59, 32, 72, 116, 116, 112, 79, 110, 108, 121, 59, 32, 80, 97, 116, 104, 61, 47]])) := by rfl
+
+/-! ### the call returns ⇒ the response is sent, with that cookie (review S1-a, S2-a, S2-b, S2-c) -/
+
+/-- **A call that raises changes nothing** (fix 1aefcde): the jar — hence the response — is as if the call had not been
+made; in particular it cannot replace or half-set the cookie an earlier, returning call set under the same name. -/
+theorem raised_call_no_effect (j : Jar) (a : CookieArgs) (e : Err) (h : (setCookie j a).2 = some e) :
+    (setCookie j a).1 = j := setCookie_raise_jar j a e h
+
+/-- **Every Morsel that gets into the jar can be sent** (fix dc0f039): after any sequence of calls, returning or
+raising, the cookie loop of `flush` succeeds and writes exactly the `OutputString`s of the jar. -/
+theorem flush_never_fails (calls : List CookieArgs) :
+    flushCookies (runJar [] calls).1 = .ok ((runJar [] calls).1.map outputString) :=
+  flushCookies_ok _ (runJar_sendable calls [] (by simp))
+
+/-- **The response is always sent**: for every handler program and every ending, `respond` is `.ok`: a status line and the
+`Set-Cookie` values of the whole jar (no call that returned can make `flush` raise). -/
+theorem response_always_sent (ops : List HOp) (e : Ending) :
+    ∃ st, (serveHandler ops e).2 = .ok (st, (runJar [] (cookieCalls ops)).1.map outputString) := by
+  have hj : (endState (hrun {} ops).1 e).jar = (runJar [] (cookieCalls ops)).1 := by
+    rw [endState_jar, hrun_jar]
+  refine ⟨(endState (hrun {} ops).1 e).status, ?_⟩
+  simp only [serveHandler, respond, hj, flush_never_fails]
+
+/-- with deprecated keywords too, the Morsel — hence (by `accepted_attrs_exact`) the attribute list the client reads — is
+a function of the call's own arguments: the base Morsel of the named arguments overridden, in order, by `morsel[k] = v`
+for each keyword (`setAttr`), and name / coded value are the call's name and `_quote(value)`. -/
+theorem accepted_attrs_kwargs (a : CookieArgs) (m : Morsel)
+    (hexp : ∀ e, a.expires = some e → ∀ x ∈ e, x ≠ 59) (h : setCookie [] a = ([m], none)) :
+    ∃ name value, nativeStr a.name = .ok name ∧ nativeStr a.value = .ok value ∧
+      readSetCookie (outputString m) = some (kv name (quote value),
+        requested (applyKwargs (baseMorsel name value a) a.kwargs).1) := by
+  obtain ⟨name, value, hn, hv, _, hk, hc, hm⟩ := buildMorsel_name_value a m (setCookie_nil_build a m h)
+  refine ⟨name, value, hn, hv, ?_⟩
+  rw [accepted_attrs_exact a m hexp h, hk, hc, ← hm]
+
+/-- **Composed read-back of an accepted call** (any keywords): the client reads `first` = `name=_quote(value)` followed by
+exactly the requested attributes, and `parse_cookie(first)` — what tornado reads on the next request — is exactly
+`{name: value}` for the call's own name and value. -/
+theorem accepted_readback (a : CookieArgs) (m : Morsel)
+    (hexp : ∀ e, a.expires = some e → ∀ x ∈ e, x ≠ 59) (h : setCookie [] a = ([m], none)) :
+    ∃ name value first, nativeStr a.name = .ok name ∧ nativeStr a.value = .ok value ∧
+      readSetCookie (outputString m) = some (first, requested m) ∧ parseCookie first = [(name, value)] := by
+  obtain ⟨name, value, hn, hv, hl, hk, hc, _⟩ := buildMorsel_name_value a m (setCookie_nil_build a m h)
+  refine ⟨name, value, kv name (quote value), hn, hv, ?_, set_then_parse name value hl⟩
+  rw [accepted_attrs_exact a m hexp h, hk, hc]
+
+/-- **The first clause, run level**: take any handler (cookie calls interleaved with `clear()`, any ending) and any one of
+its cookie calls `a` that **returned**.  If no later call *that returns* sets the same name (later calls that raise do
+not matter), then the response **is sent** (`.ok`, whatever the status) and one of its `Set-Cookie` values is read by
+the client as `first` + exactly the attributes requested by `a`, where `parse_cookie(first) = {name: value}` of `a`. -/
+theorem returned_call_sent (ops : List HOp) (e : Ending) (pre post : List CookieArgs) (a : CookieArgs) (j' : Jar)
+    (hops : cookieCalls ops = pre ++ a :: post)
+    (hret : setCookie (runJar [] pre).1 a = (j', none))
+    (hexp : ∀ t, a.expires = some t → ∀ x ∈ t, x ≠ 59)
+    (hlast : ∀ b ∈ post, ∀ mb, buildMorsel b = .ok mb → nativeStr b.name ≠ nativeStr a.name) :
+    ∃ name value m st l first, nativeStr a.name = .ok name ∧ nativeStr a.value = .ok value ∧
+      (serveHandler ops e).2 = .ok (st, l) ∧ outputString m ∈ l ∧
+      readSetCookie (outputString m) = some (first, requested m) ∧
+      m = (applyKwargs (baseMorsel name value a) a.kwargs).1 ∧ parseCookie first = [(name, value)] := by
+  obtain ⟨m, hb, hj'⟩ := (setCookie_ok_iff _ j' a).mp hret
+  have h0 : setCookie [] a = ([m], none) := by rw [setCookie_of_build_ok [] a m hb]; rfl
+  obtain ⟨name, value, hn, hv, hl, hk, hc, hm⟩ := buildMorsel_name_value a m hb
+  obtain ⟨st, hst⟩ := response_always_sent ops e
+  refine ⟨name, value, m, st, _, kv name (quote value), hn, hv, hst, ?_, ?_, hm, set_then_parse name value hl⟩
+  · rw [hops, runJar_append]
+    simp only [runJar, hret, List.mem_map]
+    refine ⟨m, runJar_keeps post j' m (by rw [hj']; simp) ?_, rfl⟩
+    intro b hbm mb hmb hkey
+    obtain ⟨nb, _, hnb, _, _, hkb, _, _⟩ := buildMorsel_name_value b mb hmb
+    apply hlast b hbm mb hmb
+    rw [hnb, hn, ← hkb, ← hk, hkey]
+  · rw [accepted_attrs_exact a m hexp h0, hk, hc]
+
+/-- non-vacuity, and the witnesses of the two repaired defects as the fixed code behaves: `set_cookie("ok","1")` returns,
+`set_cookie("w","€")` raises `CookieError` (before dc0f039 it returned and `flush` raised `ValueError`: no response);
+`set_cookie("a","first")` then `set_cookie("a","second", bogus="x")`: the second raises and (since 1aefcde) `a=first`
+is what is sent -/
+example : serveHandler [.cookie { name := .str [111, 107], value := .str [49] },
+                        .cookie { name := .str [119], value := .str [8364] }] .finish
+    = ([none, some .cookieError], .ok (200, [[111, 107, 61, 49, 59, 32, 80, 97, 116, 104, 61, 47]])) := by rfl
+example : serveHandler [.cookie { name := .str [97], value := .str [49] },
+                        .cookie { name := .str [97], value := .str [50], kwargs := [([120], .str [121])] }] .finish
+    = ([none, some .cookieError], .ok (200, [[97, 61, 49, 59, 32, 80, 97, 116, 104, 61, 47]])) := by rfl
+example : (setCookie [] { name := .str [97], value := .str [98], domain := some [8364] }).2 = some .cookieError := by rfl
+/-- a deprecated keyword value may end in a space; as the last attribute it would make `HTTPHeaders.add` refuse the header -/
+example : (setCookie [] { name := .str [97], value := .str [98],
+                          kwargs := [([86, 101, 114, 115, 105, 111, 110], .str [49, 32])] }).2 = some .cookieError := by rfl
 
 end TornadoModel.C25
